@@ -42,6 +42,9 @@ pub enum Instr {
     /// raw op in another warp (dishonest programs only)
     ForeignUpsertNode { w: u8, n: u8, ty: u8 },
     Panic,
+    /// the executor replaces the delta it was handed by a fresh one (dishonest programs only:
+    /// whatever ran before it on the same worker is dropped from that delta)
+    SwapDelta,
 }
 
 /// Declared footprint over abstract keys (all within the program's own warp unless stated).
@@ -279,6 +282,7 @@ pub fn interpret_model(pre: &AState, w: u8, prog: &Prog) -> Option<Vec<AOp>> {
             }),
             Instr::ForeignUpsertNode { w: fw, n, ty } => ops.push(AOp::UpsertNode { w: *fw, n: *n, ty: *ty }),
             Instr::Panic => return None,
+            Instr::SwapDelta => {}
         }
     }
     Some(ops)
@@ -355,7 +359,7 @@ pub fn honest_footprint(w: u8, instrs: &[Instr]) -> AFootprint {
             Instr::OpenPortal { slot_on_edge, owner, .. } => {
                 fp.a_write.insert(if *slot_on_edge { ASlot::Edge(w, *owner) } else { ASlot::Node(w, *owner) });
             }
-            Instr::ForeignUpsertNode { .. } | Instr::Panic => {}
+            Instr::ForeignUpsertNode { .. } | Instr::Panic | Instr::SwapDelta => {}
         }
     }
     fp.factor_mask = u64::MAX;
@@ -480,6 +484,7 @@ pub fn run_real(view: GraphView<'_>, w: u8, p: &Prog, delta: &mut TickDelta) {
             ),
             Instr::ForeignUpsertNode { w: fw, n, ty } => delta.push(AOp::UpsertNode { w: *fw, n: *n, ty: *ty }.to_real()),
             Instr::Panic => std::panic::panic_any("dsl: program requested a panic"),
+            Instr::SwapDelta => *delta = TickDelta::new(),
         }
     }
 }
